@@ -1,5 +1,5 @@
 """Source of MANIFEST.json (bin/mkmanifest)."""
-HOOK_COMMITS = []
+HOOK_COMMITS = ['3325b20b558a4a8c127cbb77bf01e82940ae3896']
 NOTES = ('Every check: translators regenerate coq/gen from /repo, Properties_<id>.v is rebuilt with coqc (full .vo) and its '
          'Print Assumptions output audited, the implementation is rebuilt from /repo\'s working tree in a scratch directory, '
          'the extracted model and the extracted specification oracle are run against it. See DESIGN.md.')
